@@ -208,6 +208,9 @@ def classify(case):
     return sorted(labs)
 
 
+SANITIZE = True        # thorough tier: reduced pass against an ASan build of the extensions
+SANITIZE_SCALE = 0.05
+
 SUBCHECKS = [
     Subcheck("roundtrip", cases, check_roundtrip, classify, quick=3000, thorough=150000),
 ]
